@@ -1,20 +1,22 @@
 """C14 -- exactly the accepted modules are tracked."""
-from contracts import eval_ctx, auth_type
+from contracts import eval_ctx, auth_type, retrieve_rec
 
 ID = "C14"
 LEVEL = "other"
 EXPLANATION = (
     "Proved (unbounded): EvalMainContext.is_authorized_path answers True exactly when some dotted prefix of the canonical path is in the "
     "accepted set, for every path depth and every size of the accepted set; accept_module adds exactly the module's name; _is_authorized_type tracks exactly the documented value types (27 classes x symbolic options and registry: scalars, paths, functions, modules always; list / tuple and dict / OrderedDict under their option; any other class never -- a coded error when its module is accepted). "
-    "Bounded stand-in (not proof): the classification of resolved objects and the influence of edits on both sides of the boundary "
+    "ObjectRetrieval._retrieve_object_rec (the authorized / external classification of a resolved name) is proved, over an abstract object graph and with the recursive call used by contract (partial correctness), to track an object only under an accepted path (S1), to follow a module attribute whatever module it is, to resolve a function / class defined elsewhere in its defining module under its own name, to track every terminal function / class / tracked value of an accepted path and nothing else, and to report a missing name as a coded error; three adequacy lemmas compose these clauses into 'an accepted function is tracked through any re-export and any module chain, a non-accepted one never'. "
+    "Bounded stand-in (not proof): discovery (which names a function body refers to) and the influence of edits on both sides of the boundary "
     "are checked on generated package trees (see 'bounded'): package chain of depth 6, accepted prefix at every depth, six import forms (incl. an accepted function re-exported by a non-accepted module), an edit of a function / variable at every level in a fresh process -- a caller's signature changes iff the edited module is accepted; a data function of a non-accepted module is refused with an error naming the module."
 )
 TRUSTED = [
     "A-ENGINE: pyvc VC generator + z3/cvc5",
     "abstraction: '.'.join(parts[:k]) is an uninterpreted function of (parts, min(k, len(parts)))",
     "set model: membership array + cardinality",
+    "abstract Python object graph for name resolution: kind predicates, module dictionaries, mod_path / function_path / __name__ / inspect.getmodule as uninterpreted functions; is_authorized_path and _is_authorized_type by their contracts",
 ]
-ASSUMPTIONS = ["A-ALIAS", "A-LOG"]
+ASSUMPTIONS = ["A-ALIAS", "A-LOG", "A-NAMES: the parts of a local path are identifiers (no '/' and no '.' component), so parts[1:] re-parsed as a path is parts[1:]", "the recursion of _retrieve_object_rec terminates (its contract is used as induction hypothesis; termination is not proved)"]
 LEVEL_TEXT = ("Deductive proof of the prefix-match and registration functions for all inputs (loop invariant + exit obligation), plus a bounded "
               "relational check of the discovery layer, which no contract within reach can state for arbitrary programs; hence 'other', with proved and bounded parts counted separately in the evidence.")
 DESIGN_REF = "5 (C14)"
@@ -23,6 +25,8 @@ class _Replay(dict):
     def get(self, key, default=None):
         if key.startswith("_is_authorized_type#"):
             return "h_evalctx.authorized_types"
+        if key.startswith("ObjectRetrieval._retrieve_object_rec#"):
+            return "h_retrieve.resolution_cases"
         return dict.get(self, key, default)
 
 
@@ -31,11 +35,20 @@ REPLAY = _Replay({
 })
 
 
+def owns(name, kind):
+    # the exact None / ExternalObject answer for an untracked name does not move the boundary (it is pinned under C03)
+    return "#ensures:pinned_" not in name
+
+
 def specs():
-    return [c() for c in eval_ctx.SPECS] + [c() for c in auth_type.SPECS]
+    return [c() for c in eval_ctx.SPECS] + [c() for c in auth_type.SPECS] + [c() for c in retrieve_rec.SPECS]
+
+
+def lemmas():
+    return retrieve_rec.lemmas()
 
 
 def bounded(tier, seed, pr):
     from pyvc.boundedrun import run_bounded
 
-    return [run_bounded(pr, "b_accept.py", "accept_registry_and_prefix_match"), run_bounded(pr, "b_boundary.py", "edits_on_both_sides_of_the_boundary")]
+    return [run_bounded(pr, "b_accept.py", "accept_registry_and_prefix_match"), run_bounded(pr, "b_boundary.py", "edits_on_both_sides_of_the_boundary"), run_bounded(pr, "b_retrieve.py", "resolution_vs_case_table", args={"mode": "tracking"})]
